@@ -79,13 +79,17 @@ func (r *replayer) histCase(c HCase) {
 		}
 		r.sum.Programs += len(progs)
 		reused := &vm.VM{}
+		var kept []interface{} // what each run returned, held by the caller until the history ends
+		var keptAbs []string
 		for k, hr := range c.Runs {
 			e, err := BuildEnv(hr.Env, lg)
 			if err != nil {
 				r.sum.Infra = append(r.sum.Infra, err.Error())
 				break
 			}
-			g := runOn(reused, progs[hr.Src], m, e, lg)
+			g, raw := runOnRaw(reused, progs[hr.Src], m, e, lg)
+			kept = append(kept, raw)
+			keptAbs = append(keptAbs, toJSON(Abs(raw)))
 			r.sum.Executions++
 			tags := []string{hist, fmt.Sprintf("position=%d", k+1)}
 			if ok, why := conforms(g, hr.Exp, true); !ok {
@@ -101,9 +105,42 @@ func (r *replayer) histCase(c HCase) {
 					Got: &g, Got2: &f, Tags: tags})
 			}
 		}
+		// a value returned by an earlier run is the caller's: later runs on the same VM must not change it
+		for k := range kept {
+			if toJSON(Abs(kept[k])) != keptAbs[k] {
+				r.fail(Failure{Why: "earlier-result-changed-by-later-run", Src: c.Runs[k].Src, Mode: m.String(), Env: c.Runs[k].Env, Budget: &b,
+					Tags: []string{hist, fmt.Sprintf("position=%d", k+1), "was " + keptAbs[k], "now " + toJSON(Abs(kept[k]))}})
+			}
+		}
 	}
 	if len(c.Runs) > 1 {
 		r.sum.Nontrivial++
 	}
 	r.sample(c)
+}
+
+// runOnRaw: runOn, also returning the raw value.
+func runOnRaw(v *vm.VM, prog *vm.Program, m Mode, e *Env, lg *Log) (Got, interface{}) {
+	lg.reset()
+	var out interface{}
+	var err error
+	env := envValue(e, m)
+	pmsg, hang := guarded(func() { out, err = v.Run(prog, env) })
+	g := Got{Stage: "run"}
+	if lg != nil {
+		g.Calls = append([]CallRec{}, lg.Calls...)
+	}
+	if pmsg != "" || hang {
+		g.Panic, g.Hang = pmsg, hang
+		return g, nil
+	}
+	if err != nil {
+		g.Err = err.Error()
+		return g, nil
+	}
+	g.Ok = true
+	val := Abs(out)
+	g.V = &val
+	g.GoType = fmt.Sprintf("%T", out)
+	return g, out
 }
